@@ -108,9 +108,11 @@ def str_to_time(time_str):
     :param time_str: string in the form "YYYYMMDDTHHMMSS", where T is the date-time separator
     :type time_str: str
 
-    :return: integer POSIX time
+    :return: integer POSIX time, or None if no time string is given
     :rtype: int
     """
+    if time_str is None:
+        return None
     if isinstance(time_str, bytes):
         time_str = time_str.decode()
     dt = datetime.strptime(time_str, "%Y%m%dT%H%M%S") - datetime(1970, 1, 1)
